@@ -131,7 +131,7 @@ func c08One(c *vCtx, cs c08Case) {
 
 func init() {
 	vRegister(&vCheck{
-		id: "C08", level: "exploration", flavour: "vtime",
+		id: "C08", level: "exploration", flavour: "vtime", also: []string{"C08.conc"},
 		shards:      func(string) int { return 16 },
 		rule:        "complete product: all 22 NFSv3 procedures and MOUNT 0..5 x argument shapes {well-formed for every (directory-slot, object-slot) handle kind and 7 name kinds, every byte-prefix, every word replaced by 0/1/0xFFFFFFFF} x credentials {AUTH_NONE, AUTH_SYS uid 0, AUTH_SYS uid 1000 with aux gid 0} x read-only established {at construction, UpdatePolicyOptions, UpdateExportOptions} x preceding read procedure {none, LOOKUP hit+miss, READDIRPLUS, GETATTR} (caches on). Each case on a fresh instance; oracle: no modifying backend call in the recording backend's log, backend tree dump unchanged, mutating procedures never reply NFS3_OK, ACCESS grants no MODIFY/EXTEND/DELETE. Quick restricts corrupted-word shapes to credential uid 0 and the priming to {none, lookup}.",
 		assumptions: []string{"modifying operations are those flagged by the recording backend: write-mode/creating opens, Write/WriteAt, Truncate, Create, Remove(All), Rename, Mkdir(All), Symlink, Chmod, Chown, Lchown, Chtimes"},
